@@ -159,11 +159,11 @@ theorem uthr_scale (hM : 0 < M) (hL : 0 < L) (hT : 0 < T) (q : Prob) (hq : q.Adm
   have e4 : (q.gr + 1) / 2 / q.gr * (sP M L T * q.pl) / (sP M L T * px) = (q.gr + 1) / 2 / q.gr * q.pl / px := by
     field_simp
   refine ⟨?_, ?_, ?_, ?_, ?_⟩
-  · simp only [uSCN, epv_tree, epv_leaf, b1, b2, b3, b4, hl, e1, e3]; ring
-  · simp only [uNCS, epv_tree, epv_leaf, b1, b3, b6, b8, hr, e2, e4]; ring
-  · simp only [uNCR, epv_tree, epv_leaf, b1, b3, b6, b8, hr, e2]; ring
-  · simp only [uRCN, epv_tree, epv_leaf, b1, b2, b3, b4, hl, e1]; ring
-  · simp only [uRCVR, epv_tree, epv_leaf, b1, b2, b3, b4, b6, b8, hl, hr]; ring
+  · simp only [uSCN_eq, b1, b2, b3, b4, hl, e1, e3]; ring
+  · simp only [uNCS_eq, b1, b3, b6, b8, hr, e2, e4]; ring
+  · simp only [uNCR_eq, b1, b3, b6, b8, hr, e2]; ring
+  · simp only [uRCN_eq, b1, b2, b3, b4, hl, e1]; ring
+  · simp only [uRCVR_eq, b1, b2, b3, b4, b6, b8, hl, hr]; ring
 
 /-- every star-state residual is homogeneous of the degree of a velocity, so its root scales like
 a pressure -/
@@ -210,12 +210,8 @@ theorem pmax_scale (hM : 0 < M) (hL : 0 < L) (hT : 0 < T) (q : Prob) :
     RiemSetup.pmax (toSetup (q.scale M L T)) = sP M L T * RiemSetup.pmax (toSetup q) := by
   have hP := sP_pos hM hL hT
   obtain ⟨b1, b2, b3, b4, b5, b6, b7, b8⟩ := scale_proj q M L T
-  simp only [epv_tree, epv_cond, epv_leaf, toSetup, b1, b5]
-  by_cases h : q.pr ≤ q.pl
-  · have h' : sP M L T * q.pr ≤ sP M L T * q.pl := mul_le_mul_of_nonneg_left h hP.le
-    simp [h, h']; ring
-  · have h' : ¬ sP M L T * q.pr ≤ sP M L T * q.pl := fun hh => h (le_of_mul_le_mul_left hh hP)
-    simp [h, h']; ring
+  -- shape-independent: through the documented form `pmax = 10 · max(pl, pr)` (`pmax_eq`)
+  rw [pmax_eq, pmax_eq, b1, b5, ← mul_max_of_nonneg _ _ hP.le]; ring
 
 /-! ### the whole assembled solution -/
 
